@@ -12,7 +12,7 @@
    newlines / the ends of the text. *)
 From Coq Require Import ZArith List Bool Sorted.
 From PTK Require Import Lib.Sx Lib.Py Gen.Whitespace Gen.C02_Patterns Gen.C02_CaseFold Model.Document Model.C02_DocQueries
-  Model.C02_Cache Model.C02_Run Proofs.C02_Cache Proofs.C02_CaseFold
+  Model.C02_More Model.C02_Cache Model.C02_Run Proofs.C02_Cache Proofs.C02_CaseFold Proofs.C02_FindBack Proofs.C02_More Proofs.C02_BracketsExact
   Proofs.C02_Base Proofs.C02_Coords Proofs.C02_Lines Proofs.C02_Find Proofs.C02_Brackets
   Proofs.C02_Words Proofs.C02_WordsExact Proofs.C02_WordsExactEnd Proofs.C02_FindExact Proofs.C02_Paragraphs
   Proofs.C02_LastNonBlank Proofs.C02_Boundaries Proofs.C02_Patterns.
@@ -430,6 +430,42 @@ Theorem C02_occurrence_mirror : forall ceq sub s p,
 Proof. exact occ_rev. Qed.
 Print Assumptions C02_occurrence_mirror.
 
+(* find_backwards in whole-text coordinates (round 6), also for in_current_line, no
+   mirrored text in the statement: q is the distance from the cursor back to the
+   END of an occurrence; the answers are the greedy enumeration (nearest first,
+   the next at least max(1, len sub) further away) of the q >= 0 such that sub
+   occurs in the TEXT at cursor - q - len sub and that start is not before lo
+   (back_lo: 0, or the start of the current line) *)
+Theorem C02_find_backwards_exact_text : forall ceq d sub (il : bool) count l,
+  valid d ->
+  greedy (fun q => occ ceq sub (dtext d) (dcur d - q - len sub) /\ back_lo d il <= dcur d - q - len sub)
+         (fstep sub) 0 l ->
+  dfind_backwards ceq d sub il count = option_map (fun q => - q - len sub) (nth_match l count).
+Proof. exact find_backwards_exact_text. Qed.
+Print Assumptions C02_find_backwards_exact_text.
+
+(* such a list always exists; count = 1 is the nearest occurrence that ends at
+   or before the cursor, None iff there is none *)
+Theorem C02_find_backwards_first_is_nearest : forall ceq d sub (il : bool),
+  valid d ->
+  (exists l, greedy (fun q => occ ceq sub (dtext d) (dcur d - q - len sub) /\ back_lo d il <= dcur d - q - len sub)
+                    (fstep sub) 0 l) /\
+  (forall r, dfind_backwards ceq d sub il 1 = Some r ->
+     forall k, occ ceq sub (dtext d) k -> back_lo d il <= k -> k + len sub <= dcur d -> k <= dcur d + r) /\
+  (dfind_backwards ceq d sub il 1 = None ->
+     forall k, occ ceq sub (dtext d) k -> back_lo d il <= k -> k + len sub <= dcur d -> False).
+Proof.
+  intros ceq d sub il Hv. split; [now apply find_backwards_greedy_exists|].
+  now apply find_backwards_first_is_nearest.
+Qed.
+Print Assumptions C02_find_backwards_first_is_nearest.
+
+(* has_match_at_current_position: exactly "sub occurs in the text at the cursor" *)
+Theorem C02_has_match_exact : forall d sub, valid d ->
+  (has_match_at_current_position d sub = true <-> occ ceq_exact sub (dtext d) (dcur d)).
+Proof. exact has_match_exact. Qed.
+Print Assumptions C02_has_match_exact.
+
 (* find_all is complete: strictly increasing, every member is an occurrence,
    and every occurrence is listed or overlaps a listed one *)
 Theorem C02_find_all_exact : forall ceq d sub,
@@ -466,6 +502,21 @@ Theorem C02_enclosing_bracket_left : forall d l r sp v,
      balanced_span r l (firstn (Z.to_nat (- v - 1)) (rev (firstn (Z.to_nat (dcur d)) (dtext d))))).
 Proof. exact enclosing_left_spec. Qed.
 Print Assumptions C02_enclosing_bracket_left.
+
+(* the scanners of find_enclosing_bracket_right/left, exactly (round 6; the
+   functions apply them to text[cursor+1 : min(len, end_pos)] resp. to
+   text[max(0,start_pos) : cursor] reversed, starting at depth 1): Some v iff v
+   is THE first position of the span holding the closer (opener) with a balanced
+   prefix before it; hence None iff the span has no such position *)
+Theorem C02_bracket_scanners_exact : forall l r s v, l <> r ->
+  (scan_right l r s 1 1 = Some v <->
+   exists k : nat, v = 1 + Z.of_nat k /\ nth_error s k = Some r /\
+     net l r (firstn k s) = 0 /\ (forall j : nat, (j <= k)%nat -> 0 <= net l r (firstn j s))) /\
+  (scan_left l r s 1 1 = Some v <->
+   exists k : nat, v = - (1 + Z.of_nat k) /\ nth_error s k = Some l /\
+     net r l (firstn k s) = 0 /\ (forall j : nat, (j <= k)%nat -> 0 <= net r l (firstn j s))).
+Proof. intros l r s v H. split; [now apply scan_right_exact|now apply scan_left_exact]. Qed.
+Print Assumptions C02_bracket_scanners_exact.
 
 Theorem C02_matching_bracket : forall d sp ep, valid d ->
   let v := find_matching_bracket_position d sp ep in
@@ -737,6 +788,69 @@ Example C02_word_motion_defined :
 Proof. vm_compute. reflexivity. Qed.
 Print Assumptions C02_word_motion_defined.
 
+(* pattern= (round 6): find_start_of_previous_word / get_word_before_cursor with a
+   compiled regex of one of the families [s1]+|[s2]+, [^s1]+ (runs of one class of
+   the pattern) and ^[s1]* (FuzzyCompleter's default): the count-th run start
+   before the cursor; for ^[s1]* the one run of s1 characters ending at the cursor *)
+Theorem C02_start_of_previous_word_pattern_exact : forall d count p,
+  valid d -> 1 <= count -> (forall s1, p <> PStar s1) ->
+  forall l, enumerates (fun j => j < dcur d /\ word_start (pat_cls p) (dtext d) j) l ->
+    find_start_of_previous_word_pat d count p = option_map (fun j => j - dcur d) (pick (rev l) count).
+Proof. exact start_of_previous_word_pattern_runs. Qed.
+Print Assumptions C02_start_of_previous_word_pattern_exact.
+
+Theorem C02_start_of_previous_word_pattern_star : forall d count s1,
+  let k := span_len (fun c => mem_Z c s1) (rev (text_before_cursor d)) in
+  find_start_of_previous_word_pat d count (PStar s1) = (if count =? 1 then Some (- k) else None) /\
+  0 <= k <= len (text_before_cursor d) /\
+  (forall j : nat, Z.of_nat j < k ->
+     exists x, nth_error (rev (text_before_cursor d)) j = Some x /\ mem_Z x s1 = true) /\
+  (forall x, nth_error (rev (text_before_cursor d)) (Z.to_nat k) = Some x -> mem_Z x s1 = false).
+Proof. exact start_of_previous_word_pattern_star. Qed.
+Print Assumptions C02_start_of_previous_word_pattern_star.
+
+Theorem C02_word_before_cursor_pattern : forall d p, valid d ->
+  (find_start_of_previous_word_pat d 1 p = None /\ get_word_before_cursor_pat d p = []) \/
+  (exists r, find_start_of_previous_word_pat d 1 p = Some r /\
+     get_word_before_cursor_pat d p = slice_from (text_before_cursor d) (len (text_before_cursor d) + r)).
+Proof. exact word_before_cursor_pattern. Qed.
+Print Assumptions C02_word_before_cursor_pattern.
+
+Example C02_pattern_defined :
+  find_start_of_previous_word_pat (mkdoc [97; 98; 32; 99] 4) 2 (PRuns [97; 98; 99] []) = Some (-4).
+Proof. vm_compute. reflexivity. Qed.
+Print Assumptions C02_pattern_defined.
+
+(* empty_line_count_at_the_end (round 6): exactly the number of trailing blank
+   lines: the last n lines are blank and the line before them (if any) is not *)
+Theorem C02_empty_line_count_exact : forall d,
+  let n := empty_line_count_at_the_end d in
+  0 <= n <= line_count d /\
+  (forall j, line_count d - n <= j < line_count d ->
+     blank_line (nth (Z.to_nat j) (lines d) []) = true) /\
+  (n < line_count d ->
+     blank_line (nth (Z.to_nat (line_count d - n - 1)) (lines d) []) = false).
+Proof. exact empty_line_count_exact. Qed.
+Print Assumptions C02_empty_line_count_exact.
+
+(* the character / boolean views (round 6) describe the same text as the others *)
+Theorem C02_views_chars : forall d, valid d ->
+  (dcur d < len (dtext d) -> current_char d = nth_error (dtext d) (Z.to_nat (dcur d))) /\
+  (dcur d = len (dtext d) -> current_char d = None) /\
+  (0 < dcur d -> char_before_cursor d = nth_error (dtext d) (Z.to_nat (dcur d - 1))) /\
+  (is_cursor_at_the_end d = true <-> text_after_cursor d = []) /\
+  (is_cursor_at_the_end_of_line d = true <-> current_line_after_cursor d = []) /\
+  (on_first_line d = true <-> mem_Z NL (text_before_cursor d) = false) /\
+  (on_last_line d = true <-> mem_Z NL (text_after_cursor d) = false).
+Proof. exact views_chars. Qed.
+Print Assumptions C02_views_chars.
+
+Theorem C02_lines_from_current : forall d, valid d ->
+  lines_from_current d = skipn (Z.to_nat (cursor_position_row d)) (lines d) /\
+  exists rest, lines_from_current d = current_line d :: rest.
+Proof. exact lines_from_current_spec. Qed.
+Print Assumptions C02_lines_from_current.
+
 (* ====================================================================== *)
 (* 5b. The shared line cache (Model/C02_Cache.v: a memo table keyed by the text)
    is transparent: from the empty table, in every sequence of document
@@ -770,6 +884,48 @@ Theorem C02_fold_table : forall a b,
 Proof. exact fold_table_facts. Qed.
 Print Assumptions C02_fold_table.
 
+(* the cache carried between DOCUMENTS (round 6): live Document objects in slots,
+   created, queried (any query pre-seeds the cache according to its footprint),
+   dropped, and produced from live ones by paste_clipboard_data / insert_after /
+   insert_before / copying.  In every such history from an empty process every
+   answer is the cache-free one and the live documents are the same ... *)
+Theorem C02_slots_cache_transparent : forall ops,
+  fst (srun ([], []) ops) = fst (sfree_run [] ops) /\
+  fst (snd (srun ([], []) ops)) = snd (sfree_run [] ops).
+Proof. exact slots_cache_transparent. Qed.
+Print Assumptions C02_slots_cache_transparent.
+
+(* ... and whatever the table holds for a text afterwards is what that text
+   determines (also for a pasted document and every equal-text document) *)
+Theorem C02_slots_cache_entries : forall ops t e,
+  clookup (snd (snd (srun ([], []) ops))) t = Some e ->
+  (forall l, ce_lines e = Some l -> l = lines (mkdoc t 0)) /\
+  (forall ix, ce_indexes e = Some ix -> ix = line_start_indexes (mkdoc t 0)).
+Proof. exact slots_cache_entries. Qed.
+Print Assumptions C02_slots_cache_entries.
+
+Theorem C02_slots_step : forall s c o,
+  cache_ok c ->
+  fst (sstep (s, c) o) = fst (sfree s o) /\
+  fst (snd (sstep (s, c) o)) = snd (sfree s o) /\
+  cache_ok (snd (snd (sstep (s, c) o))).
+Proof. exact sstep_correct. Qed.
+Print Assumptions C02_slots_step.
+
+(* what run_C02 uses for ignore_case=True (a positive map built from the table) is
+   exactly "equal, or listed in the regenerated table", and (the table now covers
+   every cased code point of the interpreter) it is an equivalence relation *)
+Theorem C02_fold_lookup : forall x y, ceq_fold x y = (x =? y) || mem_pair y x c02_fold_pairs.
+Proof. exact ceq_fold_spec. Qed.
+Print Assumptions C02_fold_lookup.
+
+Theorem C02_fold_equivalence :
+  (forall x, ceq_fold x x = true) /\
+  (forall x y, ceq_fold x y = true -> ceq_fold y x = true) /\
+  (forall x y z, ceq_fold x y = true -> ceq_fold y z = true -> ceq_fold x z = true).
+Proof. exact ceq_fold_equivalence. Qed.
+Print Assumptions C02_fold_equivalence.
+
 (* ====================================================================== *)
 (* 6. Tie of the scanners to /repo's regex pattern strings (regenerated) *)
 
@@ -789,3 +945,15 @@ Print Assumptions C02_patterns.
 Theorem C02_word_alphabet_is_class : forall c, is_wordch c = mem_Z c word_alphabet.
 Proof. exact C02_word_alphabet. Qed.
 Print Assumptions C02_word_alphabet_is_class.
+
+(* the shared cache object has exactly the fields of the cache model, Document exactly
+   the four slots the model knows (regenerated; a new cached field stops the build) *)
+Theorem C02_cache_fields :
+  document_cache_fields = [ [108; 105; 110; 101; 115];
+                            [108; 105; 110; 101; 95; 105; 110; 100; 101; 120; 101; 115] ]
+  /\ document_slots = [ [95; 116; 101; 120; 116];
+                        [95; 99; 117; 114; 115; 111; 114; 95; 112; 111; 115; 105; 116; 105; 111; 110];
+                        [95; 115; 101; 108; 101; 99; 116; 105; 111; 110];
+                        [95; 99; 97; 99; 104; 101] ].
+Proof. exact C02_cache_fields_as_modelled. Qed.
+Print Assumptions C02_cache_fields.
